@@ -231,6 +231,15 @@ spif_url_dup(spif_url_t self)
 
     ASSERT_RVAL(!SPIF_URL_ISNULL(self), (spif_url_t) NULL);
     tmp = spif_url_new_from_str(SPIF_STR(self));
+    REQUIRE_RVAL(!SPIF_URL_ISNULL(tmp), (spif_url_t) NULL);
+    /* The components may have been changed since the text was parsed; copy them as they are. */
+    spif_url_set_proto(tmp, ((SPIF_STR_ISNULL(self->proto)) ? ((spif_str_t) NULL) : (spif_str_dup(self->proto))));
+    spif_url_set_user(tmp, ((SPIF_STR_ISNULL(self->user)) ? ((spif_str_t) NULL) : (spif_str_dup(self->user))));
+    spif_url_set_passwd(tmp, ((SPIF_STR_ISNULL(self->passwd)) ? ((spif_str_t) NULL) : (spif_str_dup(self->passwd))));
+    spif_url_set_host(tmp, ((SPIF_STR_ISNULL(self->host)) ? ((spif_str_t) NULL) : (spif_str_dup(self->host))));
+    spif_url_set_port(tmp, ((SPIF_STR_ISNULL(self->port)) ? ((spif_str_t) NULL) : (spif_str_dup(self->port))));
+    spif_url_set_path(tmp, ((SPIF_STR_ISNULL(self->path)) ? ((spif_str_t) NULL) : (spif_str_dup(self->path))));
+    spif_url_set_query(tmp, ((SPIF_STR_ISNULL(self->query)) ? ((spif_str_t) NULL) : (spif_str_dup(self->query))));
     return tmp;
 }
 
